@@ -18,7 +18,7 @@ ASSUMPTIONS = ['lineage expected values come from harness dispatch records (who 
 def families(tier):
     deep = tier == 'thorough'
     out = []
-    cfg = dict(bound=3 if deep else 2, cap=40000 if deep else 2000, window=0.25, max_targets=2)
+    cfg = dict(bound=3 if deep else 2, cap=40000 if deep else 2000, window=0.6, max_targets=2)
 
     def add(fam, sid, buses, hs, main, forwards=(), actors=(), fwd_first=False, **params):
         names = list(buses)
@@ -58,6 +58,21 @@ def families(tier):
         main = [('disp', 'A', 'P', 'await'), ('disp', 'B', 'Z', 'ff', {'parent': 'P'})]
         hs.append(dict(bus='B', pat='Z', name='hzB', prog=[('ret', 3)]))
         add('c09.forward', f'{topo.replace(">", "to")}-{where}-{child}-p{int(par)}', buses, hs, main, forwards=fw, fwd_first=(where == 'before'), topo=topo)
+    # a handler keeps dispatching / reading event.event_bus AFTER an awaited child of it failed (its handler raised or timed out) or succeeded
+    for fail, fwd, par, nxt in itertools.product(['raise', 'timeout', 'ok', 'raise_after_pause'], (False, True), (False, True), ['ff', 'await']):
+        names = ['A', 'B'] if fwd else ['A']
+        copt = {'timeout': 0.5} if fail == 'timeout' else {}
+        hc = {'raise': [('raise', 'ValueError')], 'timeout': [('pause',), ('pause',)], 'ok': [('ret', 1)], 'raise_after_pause': [('pause',), ('raise', 'Custom')]}[fail]
+        h1 = [('bus?',), ('try_await', 'A', 'C', 'await', copt), ('bus?',), ('disp', 'A', 'G', nxt), ('pause',), ('bus?',), ('disp', 'A', 'G2', 'ff')]
+        hs = [dict(bus='A', pat='P', name='h1', prog=h1), dict(bus='A', pat='C', name='hcA', prog=hc), dict(bus='A', pat='G', name='hgA', prog=[('bus?',), ('ret', 1)]),
+              dict(bus='A', pat='P', name='h2', prog=[('bus?',), ('disp', 'A', 'Q', 'ff')]), dict(bus='A', pat='Q', name='hq', prog=[('ret', 0)])]
+        if fwd:
+            hs += [dict(bus='B', pat='P', name='hpB', prog=[('bus?',), ('pause',)]), dict(bus='B', pat='C', name='hcB', prog=[('ret', 2)]), dict(bus='B', pat='G', name='hgB', prog=[('bus?',)]),
+                   dict(bus='B', pat='Q', name='hqB', prog=[('ret', 0)])]
+        main = [('disp', 'A', 'P', 'await'), ('disp', 'A', 'X', 'ff')]
+        hs.append(dict(bus='A', pat='X', name='hx', prog=[('bus?',)]))
+        buses = {n: dict(parallel=(par and n == 'A')) for n in names}
+        add('c09.after_child_outcome', f'{fail}-f{int(fwd)}-p{int(par)}-{nxt}', buses, hs, main, forwards=[('A', 'B')] if fwd else [], fwd_first=fwd, fail=fail)
     for shape in ['redisp_pause', 'redisp_child']:
         hp = [('redisp', 'A', 'self'), ('pause',)] if shape == 'redisp_pause' else [('redisp', 'A', 'self'), ('disp', 'A', 'C', 'await')]
         hs = [dict(bus='A', pat='P', name='hp', prog=hp), dict(bus='A', pat='C', name='hc', prog=[('disp', 'A', 'G', 'ff', {'parent': 'P'})]),
@@ -113,6 +128,10 @@ def oracle(spec, res):
                 out.append(V('context_leak_to_non_handler_dispatch', f'{x} dispatched by {who} has parent {fe["parent"]}'))
             if member.get(x):
                 out.append(V('context_leak_to_non_handler_dispatch', f'{x} dispatched by {who} recorded as child in {member[x]}'))
+    for r in res['log']:
+        if r[2] == 'bus?' and r[3] in tr.who_info and r[5] != tr.who_info[r[3]][0]:
+            out.append(V('wrong_event_bus_in_handler', f'{r[3]} read event.event_bus == {r[5]} (handler runs on {tr.who_info[r[3]][0]})', forwarded=True))
+            break
     for en in tr.enters:
         if en[5] != en[2]:
             out.append(V('wrong_event_bus_in_handler', f'{en[2]}.{en[3]}({en[4]}) saw event.event_bus == {en[5]}', forwarded=True))
